@@ -44,7 +44,8 @@ def run(res, tier):
         "a signal delivered inside a statement (library call) is equivalent to one delivered right after it: the handler only sets Display::abort, "
         "which is read at the loop head and before the final message only (grep-checked on every run)",
         "8x8 grid, 8 steps per synchrotron period; laststep in {0,1,3,4}; the configuration axes tracking on/off exists on the binary side only",
-        "SIGINT is raised synchronously at the hook (std::raise), i.e. the real handler installed by main() runs"]
+        "SIGINT is raised synchronously at the hook (std::raise), i.e. the real handler installed by main() runs",
+        "every third behaviour is replayed on a process that inherited SIGINT as 'ignored' (what a background job of a non-interactive shell gets): main() installs its handler regardless, so the model's behaviour must be observed there too"]
     flag_readers(res)
     exe = pl.build.build_bin("hook")
     wd = pl.workdir("c14")
@@ -78,12 +79,14 @@ def run(res, tier):
         def do(it):
             i, t = it
             use_track = track if (tier == "thorough" and i % 2 == 1) else None
-            ob = conform.observe(exe, t["cfg"], t["sigAt"], wd, "%s_%d" % (name, i), use_track)
+            # every third behaviour is started the way a background job of a script is: with SIGINT inherited as 'ignored'
+            ign = (i % 3 == 2)
+            ob = conform.observe(exe, t["cfg"], t["sigAt"], wd, "%s_%d" % (name, i), use_track, inherit_ignored=ign)
             ref = refs[key(t["cfg"])] if not use_track else None
-            return t, ob, conform.compare(t, ob, ref), use_track
-        for t, ob, probs, tr in pl.pmap(do, list(enumerate(terms))):
+            return t, ob, conform.compare(t, ob, ref), (use_track, ign)
+        for t, ob, probs, (tr, ign) in pl.pmap(do, list(enumerate(terms))):
             tot_traces += 1
-            case = "cfg=%s signals-at-hits=%s%s" % (t["cfg"], t["sigAt"], " tracking" if tr else "")
+            case = "cfg=%s signals-at-hits=%s%s%s" % (t["cfg"], t["sigAt"], " tracking" if tr else "", " sigint-inherited-ignored" if ign else "")
             res.eval(case, pl.chash(case, ob["labels"]), trivial=False)
             where = "no-signal" if not t["sigAt"] else ("setup" if t["trace"][t["sigAt"][0] - 1].startswith("S") else "final-block" if t["trace"][t["sigAt"][0] - 1][0] in "FE" else "loop")
             for kind, detail in probs:
